@@ -10,6 +10,7 @@ pub const NCELLS: usize = 12;
 pub const NSEQ: usize = 3;
 pub const NREGS: usize = 10;
 pub const NSTACK: usize = 4;
+pub const NINSTR: usize = 4;
 pub const NHOST: usize = 3;
 
 #[derive(Debug, Clone, Copy, PartialEq)]
@@ -79,6 +80,8 @@ pub struct ModelData {
     pub frames: [(usize, usize); NSTACK], pub nframes: usize, // (return address, operand depth at the call)
     pub jumps: [usize; NSTACK], pub njumps: usize,
     pub instr_len: usize, pub cursor: usize,
+    /// a small instruction table (the first `ninstr` entries; harnesses that need one fill it, the others leave it empty)
+    pub instrs: [Instruction; NINSTR], pub ninstr: usize,
     pub host: [Option<(HostCall, bool)>; NHOST], pub nhost: usize,
     /// scripted host: answers of the next host calls; an accepting host pushes `host_result` as its single result
     pub host_accepts: bool, pub host_result: usize,
@@ -90,7 +93,7 @@ pub struct ModelData {
 impl ModelData {
     pub fn new() -> Self {
         ModelData { cells: [MCell::Unit; NCELLS], ncells: 0, regs: [0; NREGS], nregs: 0, values: [0; NSTACK], nvalues: 0, frames: [(0, 0); NSTACK], nframes: 0,
-            jumps: [0; NSTACK], njumps: 0, instr_len: 0, cursor: 0, host: [None; NHOST], nhost: 0, host_accepts: false, host_result: 0, building: None, fail_adds: false }
+            jumps: [0; NSTACK], njumps: 0, instr_len: 0, cursor: 0, instrs: [Instruction::Invalid; NINSTR], ninstr: 0, host: [None; NHOST], nhost: 0, host_accepts: false, host_result: 0, building: None, fail_adds: false }
     }
     pub fn add(&mut self, c: MCell) -> Result<usize, MErr> {
         if self.fail_adds || self.ncells >= NCELLS { return Err(MErr(1)); }
@@ -289,7 +292,7 @@ impl GarnishData for ModelData {
 
     fn get_instruction_len(&self) -> usize { self.instr_len }
     fn push_instruction(&mut self, _instruction: Instruction, _data: Option<usize>) -> Result<usize, MErr> { Err(MErr(8)) }
-    fn get_instruction(&self, _addr: usize) -> Option<(Instruction, Option<usize>)> { None }
+    fn get_instruction(&self, addr: usize) -> Option<(Instruction, Option<usize>)> { if addr < self.ninstr { Some((self.instrs[addr], None)) } else { None } }
     fn get_instruction_iter(&self) -> ArrIter<usize> { MFactory::make_size_iterator_range(0, 0) }
     fn get_instruction_cursor(&self) -> usize { self.cursor }
     fn set_instruction_cursor(&mut self, addr: usize) -> Result<(), MErr> { self.cursor = addr; Ok(()) }
